@@ -26,8 +26,8 @@ from lv import core, model, gen, drive, recgen
 from lv.props import common
 
 ID = 'C19'
-BUDGET = {'quick': 480, 'thorough': 14000}        # base programs; <= 6 corruptions each
-WALL = {'quick': 900, 'thorough': 7200}
+BUDGET = {'quick': 400, 'thorough': 12000}        # base programs; <= 6 corruptions each
+WALL = {'quick': 3000, 'thorough': 14400}      # backstop only (shared machine)
 RULE = ('valid base programs from four profiles (core and aggregation profile of the typed '
         'generator lv/gen.py, recursive programs of lv/recgen.py, core programs extended '
         'with a functor application G := F(A: B) over a fresh argument table) x the fixed '
@@ -49,6 +49,12 @@ ASSUMPTIONS = ['invalidity is established by our own bookkeeping over the lv.mod
                'by the compiler',
                'identification is the disjunction the statement gives (rule, variable or '
                'predicate); the exact wording of messages is not checked',
+               'errors are raised lazily per compiled predicate: a corrupted head field is '
+               'compiled through the corrupted predicate itself or its functor-made copy (an '
+               'injected callee contributes only the columns its caller asks for), a fresh '
+               'variable is put into a combine only if the value of the combine provably '
+               'reaches the SQL (an assignment to a variable used nowhere is dropped by the '
+               'compiler together with its right-hand side; not claimed either way)',
                'dialect-library parse memoised per process (filled by the real parser)']
 
 OPS = ('K1', 'K2', 'K3', 'K4', 'K5', 'K6', 'K7', 'K8', 'K9', 'K10')
@@ -63,7 +69,7 @@ CORE = dict(p_colnames=0.0, p_two_rules=0.5, p_named=0.4, n_idb=(1, 2), p_if=0.0
             max_rows=4)
 AGG = dict(p_colnames=0.0, p_neg=0.3, p_agg=0.4, p_distinct=0.6, p_sibling_reuse=0.4,
            p_feed_sibling=0.4, p_multi_combine=0.1, p_or=0.12, p_fcall=0.05, p_if=0.06,
-           p_named=0.7, p_two_rules=0.45, n_idb=(1, 2), nest_depth=2, max_rows=4,
+           p_named=0.7, p_two_rules=0.45, n_idb=(1, 2), nest_depth=1, max_rows=4,
            agg_ops=('Sum', 'Min', 'Max', 'Count', '+', 'List'),
            pred_agg_ops_n=('Sum', 'Min', 'Max', 'Count', '+', 'List', 'ArgMax'),
            pred_agg_ops_s=('Min', 'Max', 'List', 'Count'))
@@ -87,6 +93,13 @@ def gen_base(rng, tier='quick'):
     else:
         prog = gen_functor(rng)
     prog['profile'] = profile
+    if profile == 'rec':
+        cands = list(prog['names'])
+    else:
+        cands = [p for p in prog['preds'] if p.startswith('I')]
+        if prog.get('make') and rng.random() < 0.6:
+            cands = [prog['make'][0][1]]
+    prog['focus'] = rng.choice(cands) if cands else None
     return prog
 
 
@@ -184,6 +197,10 @@ def run_base(prog, text, pred, rules=None):
 
 # ------------------------------------------------------------------ bookkeeping
 
+class OutOfDomain(Exception):
+    """A stored case whose site the catalogue does not (any longer) contain."""
+
+
 def fresh_var(rng, rule, prog, avoid=()):
     used = model.rule_all_vars(rule) | set(avoid)
     # a name used as a local of an injectible callee is still fresh in this rule
@@ -221,6 +238,15 @@ def rule_indices(prog, with_body=None):
     return out
 
 
+def pick_rule(rng, prog, cands):
+    """Most rule-level sites of one program sit in one Hypothesis-drawn `focus`
+    predicate, so that few distinct targets need a base run."""
+    foc = [i for i in cands if prog['rules'][i]['pred'] == prog.get('focus')]
+    if foc and rng.random() < 0.8:
+        return rng.choice(foc)
+    return rng.choice(cands)
+
+
 def preds_in_order(prog):
     out = []
     for r in prog['rules']:
@@ -251,16 +277,48 @@ def direct_callers(prog, pred):
     return out
 
 
-def var_is_live(rule, body_without, v):
-    """v is used by the head or by a rule-level literal that is not a mere assignment."""
+def uses_outside_injectible(e, v, inj):
+    """v occurs in expression e somewhere that is not an argument of a call to an
+    injectible function (whose body may ignore its parameter)."""
+    k = e[0]
+    if k == 'var':
+        return e[1] == v
+    if k == 'lit' or k == 'aggx' or (k == 'fcall' and e[1] in inj):
+        return False
+    if k in ('bin', 'cmp'):
+        subs = [e[2], e[3]]
+    elif k in ('not', 'size', 'field'):
+        subs = [e[1]]
+    elif k == 'if':
+        subs = [e[1], e[2], e[3]]
+    elif k == 'list':
+        subs = list(e[1])
+    elif k == 'rec':
+        subs = [x for _, x in e[1]]
+    elif k in ('elem', 'inx', 'arrow'):
+        subs = [e[1], e[2]]
+    elif k == 'fcall':
+        subs = [x for _, x in e[2]]
+    else:
+        return False
+    return any(uses_outside_injectible(x, v, inj) for x in subs)
+
+
+def var_is_live(rule, body_without, v, inj=()):
+    """The value of v certainly reaches the SQL: v is used by the head, by a rule-level
+    comparison or by an argument of a rule-level call of a concrete predicate, outside
+    arguments of injectible calls.  (An assignment whose variable is used nowhere is
+    dropped by the compiler together with whatever it contains.)"""
     for e in model.head_exprs(rule):
-        if v in model.expr_vars(e):
+        if uses_outside_injectible(e, v, inj):
             return True
     for l in body_without:
-        if l[0] in ('cmp', 'call', 'prop', 'neg', 'in') and v in model.lit_vars(l):
-            if l[0] == 'cmp' and l[1] == '==':
-                continue
-            return True
+        if l[0] == 'cmp' and l[1] != '==':
+            if uses_outside_injectible(l[2], v, inj) or uses_outside_injectible(l[3], v, inj):
+                return True
+        elif l[0] == 'call' and l[1] not in inj:
+            if any(uses_outside_injectible(x, v, inj) for _, x in l[2]):
+                return True
     return False
 
 
@@ -290,7 +348,7 @@ def choose_K1(rng, prog):
         idx = facts
     if not idx:
         return None
-    i = rng.choice(idx)
+    i = pick_rule(rng, prog, idx)
     r = prog['rules'][i]
     slots = list(range(len(r['head']))) + (['value'] if r.get('value') is not None else [])
     if not slots:
@@ -347,7 +405,7 @@ def choose_K2(rng, prog):
     idx = rule_indices(prog, with_body=True)
     if not idx:
         return None
-    i = rng.choice(idx)
+    i = pick_rule(rng, prog, idx)
     r = prog['rules'][i]
     body = r['body']
     q, clash = fresh_var(rng, r, prog)
@@ -359,7 +417,7 @@ def choose_K2(rng, prog):
     if ors:
         modes.append('in_or')
     combs = [k for k, l in enumerate(body) if l[0] == 'agg' and
-             var_is_live(r, body[:k] + body[k + 1:], l[1])]
+             var_is_live(r, body[:k] + body[k + 1:], l[1], prog.get('inj', {}))]
     if combs:
         modes += ['in_combine', 'in_combine']
     mode = rng.choice(modes)
@@ -399,6 +457,8 @@ def apply_K2(prog, p):
     else:
         l = list(body[k])
         assert l[0] == 'agg'
+        if not var_is_live(r, body[:k] + body[k + 1:], l[1], prog.get('inj', {})):
+            raise OutOfDomain('the combine is dead code: its value is used nowhere')
         l[4] = tuple(l[4]) + (model.tup(p['lit']),)
         body[k] = tuple(l)
     r['body'] = tuple(body)
@@ -411,7 +471,8 @@ def choose_K3(rng, prog):
     if not idx:
         return None
     withneg = [i for i in idx if any(l[0] == 'neg' for l in prog['rules'][i]['body'])]
-    i = rng.choice(withneg) if withneg and rng.random() < 0.6 else rng.choice(idx)
+    i = pick_rule(rng, prog, withneg) if withneg and rng.random() < 0.6 else \
+        pick_rule(rng, prog, idx)
     r = prog['rules'][i]
     body = r['body']
     q, clash = fresh_var(rng, r, prog)
@@ -476,9 +537,9 @@ def choose_K4(rng, prog):
            if not r.get('distinct') and keyword_distinct(r) and
            any(isinstance(f, str) and h[0] != 'AGG' for f, h in r['head'])]
     if rem and (not add or rng.random() < 0.8):
-        return {'mode': 'remove_distinct', 'rule': rng.choice(rem)}
+        return {'mode': 'remove_distinct', 'rule': pick_rule(rng, prog, rem)}
     if add:
-        i = rng.choice(add)
+        i = pick_rule(rng, prog, add)
         r = prog['rules'][i]
         k = rng.choice([k for k, (f, h) in enumerate(r['head'])
                         if isinstance(f, str) and h[0] != 'AGG'])
@@ -698,7 +759,13 @@ def corrupt(prog, op, params):
         bad = next(k for k, (s, _) in enumerate(lines) if s[0] == 'extra')
         return lines, bad, {'vars': [], 'preds': [params['name']]}
     lines, bad = apply_text(prog, params)
-    return lines, bad, {'vars': [], 'preds': [], 'textual': True}
+    # what the parser sees as the offending statement: the corrupted line, or the
+    # inserted bracket alone when it was put after the closing `;`
+    base_line = next(l for sid, l in render(prog) if list(sid) == list(params['stmt']))
+    seg = lines[bad][1]
+    if params['mode'] == 'insert' and params['col'] == len(base_line):
+        seg = params['ch']
+    return lines, bad, {'vars': [], 'preds': [], 'textual': True, 'segment': seg}
 
 
 def default_target(prog, op, params, hint, rng=None):
@@ -783,8 +850,9 @@ def identify(e, lines, bad, hint, prog, target=None, tkind='self'):
         if her == text and start <= getattr(loc, 'start', -1) <= \
                 getattr(loc, 'stop', -1) <= len(text):
             found.add('location')
-        elif her and len(norm(lines[bad][1])) >= 3 and norm(lines[bad][1]) in norm(her) \
-                and norm(her) in norm(text):
+        elif her and norm(her) in norm(text) and (
+                (len(norm(lines[bad][1])) >= 3 and norm(lines[bad][1]) in norm(her)) or
+                (hint.get('segment') and norm(her).startswith(norm(hint['segment'])))):
             # the parser works statement by statement: the statement it complains about
             # is (or, with an unclosed bracket, begins with) the corrupted one
             found.add('statement')
@@ -954,21 +1022,40 @@ def prog_of_case(case):
 def check_case(case):
     drive.enable_library_cache()
     prog = prog_of_case(case)
-    res = judge(prog, case['op'], case['params'], tuple(case['target']))
+    try:
+        res = judge(prog, case['op'], case['params'], tuple(case['target']))
+    except OutOfDomain:
+        return []
     return [(res['bucket'], res['detail'])] if res['status'] == 'fail' else []
 
 
+def _site_rule(params):
+    r = params.get('rule')
+    if r is None and isinstance(params.get('stmt'), list) and params['stmt'][0] == 'rule':
+        r = params['stmt'][1]
+    return r
+
+
+def _still_fails(c2, bucket):
+    try:
+        prog2 = prog_of_case(c2)
+        defined = set(preds_in_order(prog2)) | set(prog2.get('inj', {}))
+        closed = all(common.deps_of_rule(r) <= defined for r in prog2['rules'])
+        return closed and any(b == bucket for b, _ in check_case(c2)) and \
+            run_base(prog2, text_of(render(prog2)), c2['target'][1]) == 'ok'
+    except Exception:
+        return False
+
+
 def minimise(case, bucket):
-    """Drop rules that are neither the corrupted one nor needed for the same failure;
-    the uncorrupted program must keep compiling for the target."""
+    """Drop rules, then body literals, that are not needed for the same failure; the
+    uncorrupted program must stay closed and keep compiling and running for the target."""
     cur = case
     tests = 0
     j = len(case['prog']['rules']) - 1
     while j >= 0 and tests < 80:
         cp = cur['params']
-        r_now = cp.get('rule')
-        if r_now is None and isinstance(cp.get('stmt'), list) and cp['stmt'][0] == 'rule':
-            r_now = cp['stmt'][1]
+        r_now = _site_rule(cp)
         if j == r_now:
             j -= 1
             continue
@@ -977,21 +1064,34 @@ def minimise(case, bucket):
         c2['prog']['rules'] = cur['prog']['rules'][:j] + cur['prog']['rules'][j + 1:]
         p2 = dict(cp)
         if r_now is not None and j < r_now:
-            if 'rule' in p2 and p2['rule'] is not None:
+            if p2.get('rule') is not None:
                 p2['rule'] = r_now - 1
             else:
                 p2['stmt'] = ['rule', r_now - 1]
         c2['params'] = p2
         tests += 1
-        try:
-            prog2 = prog_of_case(c2)
-            defined = set(preds_in_order(prog2)) | set(prog2.get('inj', {}))
-            closed = all(common.deps_of_rule(r) <= defined for r in prog2['rules'])
-            ok = closed and any(b == bucket for b, _ in check_case(c2)) and \
-                run_base(prog2, text_of(render(prog2)), c2['target'][1]) == 'ok'
-        except Exception:
-            ok = False
-        if ok:
+        if _still_fails(c2, bucket):
             cur = c2
         j -= 1
+    # body literals (the corrupted rule only when the site does not index its body / text)
+    site = _site_rule(cur['params'])
+    for i in range(len(cur['prog']['rules'])):
+        if i == site and cur['op'] in ('K2', 'K3', 'K9', 'K10'):
+            continue
+        k = len(cur['prog']['rules'][i].get('body') or ()) - 1
+        while k >= 0 and tests < 140:
+            body = list(cur['prog']['rules'][i]['body'])
+            if len(body) < 2:
+                break
+            c2 = dict(cur)
+            c2['prog'] = dict(cur['prog'])
+            rules = list(cur['prog']['rules'])
+            r2 = dict(rules[i])
+            r2['body'] = body[:k] + body[k + 1:]
+            rules[i] = r2
+            c2['prog']['rules'] = rules
+            tests += 1
+            if _still_fails(c2, bucket):
+                cur = c2
+            k -= 1
     return cur
